@@ -57,6 +57,14 @@ for pid in args:
                   'every line but changes WHEN or HOW OFTEN something happens: a statement moved across a loop, a try, a yield or a '
                   'condition; something hoisted out of or sunk into a loop; a cache or memo added; an early exit added or removed; a '
                   'default changed.')
+        if rnd >= 6:
+            t = t.replace('For this round make the two changes of two different KINDS: (A)', 'In earlier rounds the changes were of the kinds (A)')
+            t += ('\n\nFor THIS round use two other kinds instead: (C) a change that only shows on an edge of the quantified domain or on '
+                  'reuse: the empty input, a single value, the second use of the same element object (a second run, a run after an '
+                  'abandoned or failed run, after reset), an exception raised by a user element half-way, a subclass or an object '
+                  'with unusual but legal attributes; (D) a change that is spread over TWO places (two functions, possibly two '
+                  'files) each of which is harmless alone and locally plausible, but which together break the property -- deliver '
+                  'both places in the one patch.')
         if rnd >= 5:
             import glob as _g
             touched = set()
